@@ -6,18 +6,19 @@ and every interval met is compared with the interval the reference derives from 
 """
 from __future__ import annotations
 
-from pyoda_time import DateTimeZone, DateTimeZoneProviders, Instant, Offset
+from pyoda_time import DateTimeZone, DateTimeZoneProviders, Offset
 from pyoda_time.time_zones import DateTimeZoneNotFoundError
 
 from vf.core.evidence import Acc, exc_origin
 from vf.core.par import pmap
 from vf.models import nzdref, tzrules
 from vf.models import zonewalk as zw
-from vf.models.nzdref import DAY_NS, NS
+from vf.models.nzdref import DAY_NS
 from vf.models.tzrules import MAX_NS, MIN_NS
 
 LEVEL = "model_checking"
 ALIAS_TAIL_YEARS = 30
+ITEM_CPU_LIMIT = 60         # CPU seconds per work item; a normal item needs < 10
 FILES = ("bundled", "second")
 
 
@@ -99,8 +100,20 @@ def compare_window(acc, which, zid, z, rz, lo, hi):
 
 
 def _zone_item(item):
-    which, zid, canon, windows = item
     acc = Acc()
+    if zw.too_many_hangs(acc):
+        return acc
+    try:
+        with zw.cpu_limit(ITEM_CPU_LIMIT):
+            return _zone_item_body(item, acc)
+    except zw.Hang as h:
+        zw.hang_violation(acc, "C06", "%s|%s" % (item[0], item[1]), h)
+        acc.notes.pop("seams", None)
+        return acc
+
+
+def _zone_item_body(item, acc):
+    which, zid, canon, windows = item
     _, f = zw.decoded(which)
     rz = f["zones"][canon]
     try:
@@ -123,8 +136,11 @@ def _zone_item(item):
             if z2.id != zid:
                 acc.violation("C06/%s/source-zone-id/%s" % (which, "alias" if zid != canon else "canonical"),
                               "source.for_id(%r) returned a zone whose id is %r" % (zid, z2.id), {"file": which, "zone": zid})
-            if prov.get_zone_or_none(zid) is not z:
-                acc.violation("C06/%s/provider-identity/%s" % (which, zid), "get_zone_or_none and [] return different objects for one id", {"file": which, "zone": zid})
+            z3 = prov.get_zone_or_none(zid)
+            acc.count(evaluations=1)
+            if z3 is None or z3.id != zid:
+                acc.violation("C06/%s/get-zone-or-none/%s" % (which, "alias" if zid != canon else "canonical"),
+                              "get_zone_or_none(%r) returned %r" % (zid, z3 and z3.id), {"file": which, "zone": zid})
         if rz["kind"] == "fixed":
             acc.outcome("file-zone:fixed")
             name = rz["name"] if rz["name"] is not None else zid
@@ -262,6 +278,19 @@ def check_catalogue(acc, which):
     acc.sample({"file": which, "bytes": len(data), "zones_in_file": len(f["zones"]), "aliases": len(f["idmap"]), "version_id": exp_version,
                 "fields": sorted(set(f["field_ids"])), "rule_zones": sum(1 for zz in f["zones"].values() if zz["kind"] == "precalc" and zz["tail"])})
     acc.count(nontrivial=len(exp_ids))
+    # which features of the yearly-rule language the file actually uses (so that vacuity is visible)
+    for zz in f["zones"].values():
+        if zz["kind"] == "precalc" and zz["tail"]:
+            for r in (zz["tail"]["drule"], zz["tail"]["srule"]):
+                acc.outcome("%s rule: mode=%s" % (which, ("utc", "wall", "standard", "?")[r["mode"]]))
+                acc.outcome("%s rule: %s" % (which, "fixed day of month" if not r["dow"] else
+                                             ("last weekday of month" if r["dom"] < 0 else "weekday on/after day") if (r["dom"] < 0 or r["advance"]) else "weekday on/before day"))
+                if r["add_day"]:
+                    acc.outcome("%s rule: 24:00 (add a day)" % which)
+                if r["month"] == 2 and r["dom"] == 29:
+                    acc.outcome("%s rule: Feb 29" % which)
+                if r["tod_ms"] % 3600000:
+                    acc.outcome("%s rule: time of day not on the hour" % which)
 
 
 # ---- fixed-offset ids ----------------------------------------------------------------------------
